@@ -15,7 +15,7 @@ Require Import Cherab.Model.C14_Cache Cherab.Model.C14_Caching.
 Require Import Cherab.Model.C14_System.
 Require Import Cherab.Proofs.C14_History Cherab.Proofs.C14_Hermite Cherab.Proofs.C14_Find Cherab.Proofs.C14_Grid
                Cherab.Proofs.C14_Dim1 Cherab.Proofs.C14_Tensor Cherab.Proofs.C14_Error Cherab.Proofs.C14_ErrorDims
-               Cherab.Proofs.C14_System.
+               Cherab.Proofs.C14_System Cherab.Proofs.C14_FarOrigin.
 Open Scope Q_scope.
 
 (* ---- 1. history independence: for EVERY list of previously evaluated points (inside or outside the
@@ -313,4 +313,119 @@ Proof.
   split; [reflexivity|]. split; [reflexivity|]. split; [exact (proj1 (axis_increasing 0 1 (1 # 4) eq_refl))|].
   split; [|vm_compute; reflexivity].
   unfold uniform_cell. repeat split; vm_compute; reflexivity.
+Qed.
+
+(* ---- 11b. The de-normalisation loops of Caching2D / Caching3D, line by line (Model/C14_System.v: denorm2 / denorm3 with
+        the code's grouping of factors, _evaluate_polynomial_derivative, the "coeffs_view[0] += data_min" step) followed by
+        the code's return expression (eval2 / eval3) compute exactly what the model's evalc2 / evalc3 compute.  Together
+        with section 11 this makes the 2-D/3-D model a consequence of the code's own statements; only "numpy.linalg.solve
+        returns the solution of the system up to rounding" remains tied by values. ---- *)
+Theorem C14_denormalised_evaluation_2d :
+  forall x y topx topy fb i j vals px py,
+  increasing x topx -> increasing y topy -> (1 <= i <= topx - 2)%Z -> (1 <= j <= topy - 2)%Z -> length vals = 16%nat ->
+  evalc2 x y topx topy fb ((i, j), vals) (px, py)
+  == eval2 (denorm2 (data_delta fb) (data_min fb) (x_delta_inv x topx) (x_delta_inv y topy) (x 0%Z) (y 0%Z)
+              (coef2 (nodes4 (fun u => nrm x topx (x u)) i) (nodes4 (fun v => nrm y topy (y v)) j) (block2 vals))) px py.
+Proof. exact code_evaluation_2d. Qed.
+Print Assumptions C14_denormalised_evaluation_2d.
+
+Theorem C14_denormalised_evaluation_3d :
+  forall x y z topx topy topz fb i j k vals px py pz,
+  increasing x topx -> increasing y topy -> increasing z topz ->
+  (1 <= i <= topx - 2)%Z -> (1 <= j <= topy - 2)%Z -> (1 <= k <= topz - 2)%Z -> length vals = 64%nat ->
+  evalc3 x y z topx topy topz fb ((i, j, k), vals) (px, py, pz)
+  == eval3 (denorm3 (data_delta fb) (data_min fb) (x_delta_inv x topx) (x_delta_inv y topy) (x_delta_inv z topz)
+              (x 0%Z) (y 0%Z) (z 0%Z)
+              (coef3 (nodes4 (fun u => nrm x topx (x u)) i) (nodes4 (fun v => nrm y topy (y v)) j)
+                     (nodes4 (fun w => nrm z topz (z w)) k) (block3 vals))) px py pz.
+Proof. exact code_evaluation_3d. Qed.
+Print Assumptions C14_denormalised_evaluation_3d.
+
+(* ---- 11c. The known finding c14-farorigin explained (see Proofs/C14_FarOrigin.v): for the cubic a (x - x0)^3 stored, as the
+        code stores it, by its monomial coefficients about the origin, coefficient perturbations of relative size eps can
+        move the value in the cell [x0, x0+h] by eps a (x0+px)^3 >= 8 eps a x0^3 = 8 (x0/h)^3 * eps * (a h^3), while the
+        cubic itself is at most a h^3 there: the error grows with the cube of |x0|/h. ---- *)
+Theorem C14_farorigin_cancellation :
+  forall a x0 h px eps, 0 < a -> 0 <= x0 -> 0 < h -> x0 <= px <= x0 + h -> 0 <= eps ->
+  evalc1 (cubic_about_origin a x0) px == a * ((px - x0) * (px - x0) * (px - x0)) /\
+  0 <= a * ((px - x0) * (px - x0) * (px - x0)) <= a * (h * h * h) /\
+  (let '(c0, c1, c2, c3) := cubic_about_origin a x0 in let '(d0, d1, d2, d3) := perturbed a x0 eps in
+   Qabs.Qabs (d0 - c0) <= eps * Qabs.Qabs c0 /\ Qabs.Qabs (d1 - c1) <= eps * Qabs.Qabs c1 /\
+   Qabs.Qabs (d2 - c2) <= eps * Qabs.Qabs c2 /\ Qabs.Qabs (d3 - c3) <= eps * Qabs.Qabs c3) /\
+  evalc1 (perturbed a x0 eps) px - evalc1 (cubic_about_origin a x0) px
+  == eps * a * ((x0 + px) * (x0 + px) * (x0 + px)) /\
+  8 * eps * a * (x0 * x0 * x0) <= eps * a * ((x0 + px) * (x0 + px) * (x0 + px)).
+Proof. exact farorigin_cancellation. Qed.
+Print Assumptions C14_farorigin_cancellation.
+
+(* ---- 12. The error bound over the REALS, with no hypothesis of Taylor type left: Phi (F) is any real function that is
+        twice differentiable along the axes with second derivative bounded by M on the stencil ([C2_bounded]: derivative
+        functions exist, Coquelicot's is_derive); f is the rational-valued (e.g. double precision) wrapped function, which
+        samples it within delta at the nodes (delta = 0 when f is exact).  Taylor's theorem with Lagrange remainder is
+        Coquelicot's Taylor_Lagrange, applied on both sides of the evaluation point.  These theorems rest on the axioms of
+        the standard library's classical real numbers (printed below; named in the check's trusted base). ---- *)
+From Coq Require Import Reals Qreals.
+From Coquelicot Require Import Coquelicot.
+Require Import Cherab.Proofs.C14_Real.
+Local Open Scope R_scope.
+
+Theorem C14_taylor_inequality_R :
+  forall (F F1 F2 : R -> R) t y a b M,
+  (forall s, is_derive F s (F1 s)) -> (forall s, is_derive F1 s (F2 s)) ->
+  (forall s, a <= s <= b -> Rabs (F2 s) <= M) -> a <= t <= b -> a <= y <= b ->
+  Rabs (F y - F t - F1 t * (y - t)) <= M / 2 * ((y - t) * (y - t)).
+Proof. exact taylor_R. Qed.
+Print Assumptions C14_taylor_inequality_R.
+
+Theorem C14_error_bound_C2_1d :
+  forall x top fb nbe (f : Q -> Q) hist p i v H Phi M delta,
+  C14_Caching.increasing x top -> (3 <= top)%Z ->
+  locate1 x top p = Some i -> eval_after1 fb nbe x top f hist p = Val v -> spacing_leQ x i H ->
+  C2_bounded Phi (Q2R (x (i - 1)%Z)) (Q2R (x (i + 2)%Z)) M ->
+  (forall k, (i - 1 <= k <= i + 2)%Z -> Rabs (Q2R (f (x k)) - Phi (Q2R (x k))) <= delta) ->
+  Rabs (Q2R v - Phi (Q2R p)) <= 3 * M * (Q2R H * Q2R H) + 3 / 2 * delta.
+Proof. exact after1_error_R. Qed.
+Print Assumptions C14_error_bound_C2_1d.
+
+Theorem C14_error_bound_C2_2d :
+  forall x y topx topy fb nbe (f : Q * Q -> Q) hist px py i j v Hx Hy (F : R -> R -> R) Mx My delta,
+  C14_Caching.increasing x topx -> C14_Caching.increasing y topy -> (3 <= topx)%Z -> (3 <= topy)%Z ->
+  locate2 x y topx topy (px, py) = Some (i, j) ->
+  eval_after2 fb nbe x y topx topy f hist (px, py) = Val v ->
+  spacing_leQ x i Hx -> spacing_leQ y j Hy ->
+  (forall u, (i - 1 <= u <= i + 2)%Z -> C2_bounded (fun b => F (Q2R (x u)) b) (Q2R (y (j - 1)%Z)) (Q2R (y (j + 2)%Z)) My) ->
+  C2_bounded (fun a => F a (Q2R py)) (Q2R (x (i - 1)%Z)) (Q2R (x (i + 2)%Z)) Mx ->
+  (forall u w, (i - 1 <= u <= i + 2)%Z -> (j - 1 <= w <= j + 2)%Z ->
+               Rabs (Q2R (f (x u, y w)) - F (Q2R (x u)) (Q2R (y w))) <= delta) ->
+  Rabs (Q2R v - F (Q2R px) (Q2R py))
+  <= 3 * Mx * (Q2R Hx * Q2R Hx) + 3 / 2 * (3 * My * (Q2R Hy * Q2R Hy) + 3 / 2 * delta).
+Proof. exact after2_error_R. Qed.
+Print Assumptions C14_error_bound_C2_2d.
+
+Theorem C14_error_bound_C2_3d :
+  forall x y z topx topy topz fb nbe (f : Q * Q * Q -> Q) hist px py pz i j k v Hx Hy Hz
+         (F : R -> R -> R -> R) Mx My Mz delta,
+  C14_Caching.increasing x topx -> C14_Caching.increasing y topy -> C14_Caching.increasing z topz -> (3 <= topx)%Z -> (3 <= topy)%Z -> (3 <= topz)%Z ->
+  locate3 x y z topx topy topz (px, py, pz) = Some (i, j, k) ->
+  eval_after3 fb nbe x y z topx topy topz f hist (px, py, pz) = Val v ->
+  spacing_leQ x i Hx -> spacing_leQ y j Hy -> spacing_leQ z k Hz ->
+  (forall u w, (i - 1 <= u <= i + 2)%Z -> (j - 1 <= w <= j + 2)%Z ->
+     C2_bounded (fun c => F (Q2R (x u)) (Q2R (y w)) c) (Q2R (z (k - 1)%Z)) (Q2R (z (k + 2)%Z)) Mz) ->
+  (forall u, (i - 1 <= u <= i + 2)%Z ->
+     C2_bounded (fun b => F (Q2R (x u)) b (Q2R pz)) (Q2R (y (j - 1)%Z)) (Q2R (y (j + 2)%Z)) My) ->
+  C2_bounded (fun a => F a (Q2R py) (Q2R pz)) (Q2R (x (i - 1)%Z)) (Q2R (x (i + 2)%Z)) Mx ->
+  (forall u w q, (i - 1 <= u <= i + 2)%Z -> (j - 1 <= w <= j + 2)%Z -> (k - 1 <= q <= k + 2)%Z ->
+     Rabs (Q2R (f (x u, y w, z q)) - F (Q2R (x u)) (Q2R (y w)) (Q2R (z q))) <= delta) ->
+  Rabs (Q2R v - F (Q2R px) (Q2R py) (Q2R pz))
+  <= 3 * Mx * (Q2R Hx * Q2R Hx) + 3 / 2 * (3 * My * (Q2R Hy * Q2R Hy) + 3 / 2 * (3 * Mz * (Q2R Hz * Q2R Hz) + 3 / 2 * delta)).
+Proof. exact after3_error_R. Qed.
+Print Assumptions C14_error_bound_C2_3d.
+
+(* non-vacuity of the real-number hypotheses: sin is C2_bounded with M = 1 on any interval *)
+Example C14_C2_nonvacuous : forall a b, C2_bounded sin a b 1.
+Proof.
+  intros a b. exists cos, (fun s => - sin s). split; [|split].
+  - intro u. apply is_derive_Reals. apply derivable_pt_lim_sin.
+  - intro u. apply is_derive_Reals. apply derivable_pt_lim_cos.
+  - intros u _. rewrite Rabs_Ropp. apply Rabs_le. pose proof (SIN_bound u). lra.
 Qed.
